@@ -254,6 +254,13 @@ func checkMain(args []string) int {
 			if k := isKnown(n); k != nil {
 				continue
 			}
+			// Only obligations that come from a contract clause (ensures, loop invariant) have a stable
+			// identity. Safety, call-precondition and frame obligations are named after program points
+			// (the n-th index operation, the n-th call of f, a heap variable the body writes): a refactoring that
+			// removes the program point removes the obligation, which is not a violation.
+			if !(strings.Contains(n, "#ensures:") || (strings.Contains(n, "#invariant-") && !strings.Contains(n, "~"))) {
+				continue
+			}
 			rp := filepath.Join(replayDir, mangle(n)+".txt")
 			os.WriteFile(rp, []byte("obligation: "+n+"\nstatus: missing — the function, clause or program point this obligation was generated from no longer exists\n"), 0o644)
 			report(n, "obligation proved on the baseline is no longer generated (target missing)", rp, false)
